@@ -310,6 +310,22 @@ def rule_boundary(run, F, cfg):
            site=F.consts["utils::TOKENS_MAX"]["span"], config=cfg)
 
 
+def rule_token_cap_unbounded(run, F, cfg):
+    """For the properties that quantify over ALL requests (C04, C14 carry no premise on the number of URL tokens,
+    unlike C01): the request tokenizer looks up every token of the URL. It does not: it stops at TOKENS_MAX. The cap is
+    part of the instance key, so that a different (lower) cap is a different finding."""
+    t = F.fn("utils::fast_tokenizer_no_regex")
+    run.touched(t)
+    capped = [b for b, i, s in t.statements() if s["k"] == "assign" and s["rv"]["k"] == "binop" and s["rv"]["op"] in ("Ge", "Gt", "Lt", "Le")
+              and "TOKENS_MAX" in t.expr_rvalue(s["rv"], 2)]
+    cap = F.const_int("utils::TOKENS_MAX")
+    run.ob("C01.4.token-boundary", f"request-tokens-not-truncated:cap={cap if capped else 'none'}", not capped,
+           f"the request tokenizer stops after {cap} tokens: a rule filed under a token that comes later in the URL is never "
+           f"looked up although it matches (`*$removeparam=fbclid` does not remove fbclid behind 61 other parameters; adding "
+           f"rules that share a URL's early tokens can move a matching rule's bucket behind the cap and un-block the URL)",
+           site=t.loc(capped[0]) if capped else t.loc(0), config=cfg)
+
+
 def _resolve(val, d):
     """evaluate a boolean expression over decided mask predicates"""
     if val is None:
